@@ -137,9 +137,14 @@ class _CommentClaimer(Generic[_M]):
             raise ValueError(f'{len(self._comments_to_claim)} comment(s) not found.')
 
         if comments_before:
-            # The list's own placeholder (and any other in between) moves in front of the comments it now owns.
+            # The list's own placeholder (and any other in between) moves in front of the comments it now owns,
+            # and in front of the line break(s) before them, where the parser puts it.
+            first = comments_before[0]
+            token = self._repeated.token_store.get_prev(first)
+            while isinstance(token, Newline | Whitespace):
+                first, token = token, self._repeated.token_store.get_prev(token)
             _shift_ignored(
-                self._repeated.token_store, comments_before[0], self._repeated.first_token, backwards=True)
+                self._repeated.token_store, first, self._repeated.first_token, backwards=True)
 
         if comments_after:
             first = self._repeated.token_store.get_next(self._repeated.last_token)
